@@ -375,7 +375,11 @@ func (e *env) check(c *tcase, o outcome) (fs []finding, firstReason string, firs
 			if i > 0 {
 				pos = "redirect-hop"
 			}
-			key := fmt.Sprintf("sent-to-denied:%s:%s:%s:%s", pos, reason, hostGroup(h), rcl)
+			kcl := rcl
+			if strings.HasPrefix(kcl, "addr:") { // part (L): answers derived from the rule entries
+				kcl = "derived-address"
+			}
+			key := fmt.Sprintf("sent-to-denied:%s:%s:%s:%s", pos, reason, hostGroup(h), kcl)
 			if reason == reasonDenyMapped {
 				key = "deny-rule-in-ipv4-mapped-notation-not-applied"
 			}
@@ -1142,6 +1146,41 @@ func TestCheck(t *testing.T) {
 	if workers > 16 {
 		workers = 16
 	}
+
+	// part (D): redirect chains through the real PushDispatcher (dispatch_test.go)
+	tD := time.Now()
+	rep.dispatcherFamily(t, deadline, workers)
+	r.Set("wall_dispatcher_chains_s", time.Since(tD).Seconds())
+
+	// part (L): rule lists with related entries (lists_test.go); compiled like the base policies
+	tL := time.Now()
+	lpols := listPolicies(r.Thorough())
+	lreals := make([]dispatcher.EgressPolicy, len(lpols))
+	lbooted := 0
+	for i, p := range lpols {
+		if time.Now().After(deadline) {
+			break
+		}
+		real, _, err := realPolicy(p, "https://name.example/hook")
+		if err != nil {
+			r.Infra("list policy %s (form %q) does not boot: %v", p.label(), p.Form, err)
+			r.Finish()
+		}
+		if real.HTTPSOnly != p.HTTPSOnly || real.Redirects != p.Redirects || real.DNSRebindProtection != p.Rebind || (len(real.Allow) == 0) != (len(p.Allow) == 0) || (len(real.Deny) == 0) != (len(p.Deny) == 0) {
+			// (the number of compiled rules is not compared here: dropping a truly redundant entry is not a violation; the requests decide)
+			const key = "config:egress-policy-not-carried-to-dispatcher"
+			rep.seen[key]++
+			if rep.seen[key] == 1 {
+				r.Violation(key, fmt.Sprintf("Hookaidofile egress block %s reached the dispatcher as %+v", p.label(), real), map[string]any{"policy": p}, nil)
+			}
+		}
+		lreals[i] = real
+		lbooted++
+	}
+	if lbooted < len(lpols) {
+		r.NotExhaustive(fmt.Sprintf("wall budget reached: %d of %d rule-list policies compiled", lbooted, len(lpols)))
+	}
+	r.Set("wall_list_boots_s", time.Since(tL).Seconds())
 	jobs := make(chan int)
 	stats := make([]*wstats, workers)
 	var done, incomplete int64
@@ -1153,7 +1192,12 @@ func TestCheck(t *testing.T) {
 		go func(st *wstats) {
 			defer wg.Done()
 			for i := range jobs {
-				ok := time.Now().Before(deadline) && rep.enumeratePolicy(i, pols[i], reals[i], dom, st, deadline)
+				var ok bool
+				if i < len(pols) {
+					ok = time.Now().Before(deadline) && rep.enumeratePolicy(i, pols[i], reals[i], dom, st, deadline)
+				} else {
+					ok = time.Now().Before(deadline) && rep.enumerateListPolicy(i, lpols[i-len(pols)], lreals[i-len(pols)], st, deadline)
+				}
 				mu.Lock()
 				if ok {
 					done++
@@ -1166,6 +1210,9 @@ func TestCheck(t *testing.T) {
 	}
 	for i := range pols {
 		jobs <- i
+	}
+	for i := 0; i < lbooted; i++ {
+		jobs <- len(pols) + i
 	}
 	close(jobs)
 	wg.Wait()
@@ -1200,7 +1247,7 @@ func TestCheck(t *testing.T) {
 	}
 	rep.flush()
 	if incomplete > 0 {
-		r.NotExhaustive(fmt.Sprintf("wall budget reached: %d of %d policies enumerated completely", done, len(pols)))
+		r.NotExhaustive(fmt.Sprintf("wall budget reached: %d of %d policies enumerated completely", done, len(pols)+lbooted))
 	}
 	rep.mu.Lock()
 	if len(rep.seen) > 0 {
@@ -1209,6 +1256,7 @@ func TestCheck(t *testing.T) {
 	rep.mu.Unlock()
 
 	r.Set("policies", len(pols))
+	r.Set("list_policies_total", len(lpols))
 	r.Set("domains", map[string]any{"schemes": len(dom.schemes), "hosts": len(hosts), "resolver_answers": len(dom.res), "userinfo": len(userinfos), "ports": len(ports),
 		"rule_sets": len(dom.rules), "redirect_statuses": dom.statuses, "redirect_target_forms": len(dom.redirForms), "odd_urls": len(oddURLs), "dispatcher_cases": len(dispatcherCases())})
 	r.Set("rule", "complete product scheme x host x (resolver answer, names only) x userinfo x port x https_only x redirects x dns_rebind_protection x allow x deny through "+
@@ -1245,6 +1293,15 @@ func (rep *reporter) replayFile(t *testing.T, path string) {
 		Kind string `json:"kind"`
 	}
 	_ = json.Unmarshal(f.Replay, &kind)
+	if kind.Kind == "dispatcher-chain" {
+		var dc DispCase
+		if err := json.Unmarshal(f.Replay, &dc); err != nil {
+			r.Infra("replay: %v", err)
+			return
+		}
+		rep.replayDispCase(t, dc)
+		return
+	}
 	if kind.Kind == "dispatcher" || kind.Kind == "" {
 		rep.dispatcherLevel(t)
 		return
